@@ -23,6 +23,8 @@ CheckReject(e) ==
   /\ Judge("C07", "NothingSentIffRejected", (Len(e.sent) = 0) <=> rej, <<Len(e.sent), e.ret.t>>, IF rej THEN "rejected" ELSE "accepted")
   /\ (IF rej THEN Judge("C07", "RejectedReturnsError", e.ret.t = "err", e.ret.t, "err") ELSE TRUE)
   /\ (IF ~rej THEN Judge("C07", "AcceptedSendsOnce", Len(e.sent) = 1, Len(e.sent), 1) ELSE TRUE)
+  \* "disables (sends 0 for) passcodes above 999999 or beyond the fourth" - and only those
+  /\ (IF ~rej /\ e.op = "SetDoorPasscodes" THEN Judge("C07", "PasscodesSentOrDisabled", e.sent = Sent(e.op, e.a), e.sent, Sent(e.op, e.a)) ELSE TRUE)
 
 CheckNoPanic(e) ==
   /\ Judge("C04", "NoPanic", e.ret.t # "panic", e.ret, "no panic")
